@@ -490,6 +490,14 @@ let register (reg : string -> (Sx.t list -> Sx.t) -> unit) : unit =
         wr_bool (Authz.login_admits (Authz.email_valid (rd_list rd_str domains) (rd_list rd_str file)) (rd_list rd_str allowed)
                    { Authz.a_email = rd_str email; a_groups = rd_list rd_str groups })
       | _ -> raise (Bad "login_admits arity"));
+  (* ---- an extra JWT issuer entry ---- *)
+  reg "parse_jwt_issuer" (function
+      | [spec] -> wr_opt (fun (u, a) -> L [wr_str u; wr_str a]) (JwtIssuers.parse_jwt_issuer (rd_str spec))
+      | _ -> raise (Bad "parse_jwt_issuer arity"));
+  reg "extra_issuer_accepts" (function
+      | [spec; aud] -> wr_bool (match JwtIssuers.parse_jwt_issuer (rd_str spec) with
+          | Some (_, a) -> Bytes0.str_eqb a (rd_str aud) | None -> false)
+      | _ -> raise (Bad "extra_issuer_accepts arity"));
   (* ---- the configured code-challenge method ---- *)
   reg "pkce_method" (function
       | [m] -> Y (match Pkce.method_of_string (rd_str m) with
